@@ -229,6 +229,10 @@ fn snapshot(s: &Setup) -> FsState {
     FsState { input: stat(&s.dir.join("in.png")), dest, files }
 }
 
+fn after_content(s: &Setup, rel: &str) -> Option<Vec<u8>> {
+    std::fs::read(s.dir.join(rel)).ok()
+}
+
 fn strace(s: &Setup, inject: Option<&str>) -> (Option<i32>, String, Vec<u8>) {
     let log = s.dir.join("strace.log");
     let _ = std::fs::remove_file(&log);
@@ -254,6 +258,7 @@ pub fn corr(ctx: &mut Ctx) {
             if b.len() < c.input.len() {
                 // "not improvable" = a fixed point of the default run (one run's output can sometimes be
                 // improved by a second run, C04's chains; iterate until it cannot)
+                let first = b.clone();
                 let mut fix = b;
                 for _ in 0..16 {
                     match run_case(&fix, &o) {
@@ -261,7 +266,7 @@ pub fn corr(ctx: &mut Ctx) {
                         _ => break,
                     }
                 }
-                break (c.input, fix);
+                break (c.input, fix, first);
             }
         }
     };
@@ -315,6 +320,22 @@ pub fn corr(ctx: &mut Ctx) {
                 }
                 let after = snapshot(&s);
                 // oracles on the fault-free run
+                // what is delivered is exactly what the library returns for the default options: the optimised
+                // bytes for the improvable file, the file itself for the one that cannot be improved
+                if *kind != "invalid" && !route.starts_with("pretend") {
+                    let want: &Vec<u8> = if *kind == "improvable" { &improvable.2 } else { data };
+                    let got: Option<Vec<u8>> = match *route {
+                        "inplace" => after_content(&s, "in.png"),
+                        "out" => after_content(&s, "out.png"),
+                        "dir" => after_content(&s, "outdir/in.png"),
+                        _ => Some(stdout.clone()),
+                    };
+                    if got.as_ref() != Some(want) {
+                        st.fail("delivered-bytes", format!("delivered {} bytes, the library's result has {} ({})", got.map_or(0, |g| g.len()), want.len(), cfg), replay.clone());
+                    } else {
+                        st.count("delivered_bytes_ok");
+                    }
+                }
                 let expect_exit = if *kind == "invalid" { 1 } else { 0 };
                 if status != Some(expect_exit) {
                     st.fail("exit-status", format!("exit {:?}, expected {} ({})", status, expect_exit, cfg), replay.clone());
